@@ -103,7 +103,7 @@ PROPS = {
     ),
     "C06": dict(
         modules=["Whawty.Props.C06"],
-        suites=[("overlay", "v06")],
+        suites=[("overlay", "v06"), ("overlay4", "v06c"), ("overlay-race", "v06c"), ("overlay4", "vbin")],
         level_text="The eight handlers are modelled as authorize (gate logic) + perform (store call) over an abstract "
                    "store and the ideal-AEAD session factory; refused_changes_nothing, mgmt_requires_admin_session, "
                    "update_requires, token_only_after_auth and history_closure are Lean theorems. The real mux "
@@ -116,10 +116,14 @@ PROPS = {
              "(not JSON, wrong types, extra / duplicate / case-variant keys, empty and missing fields, both credentials) "
              "+ 150 (1500) random requests; expired/future tokens are sealed with the factory's own AEAD; logins under "
              "variants of an account's name (realm suffix that is itself an account or not, case, white space, NUL) with "
-             "the base account's password, and what a token so obtained can do.",
+             "the base account's password, and what a token so obtained can do; concurrent phase: an administrator "
+             "lists while an ordinary user with a same-length session tries list / set-admin / update-other / add from "
+             "four goroutines for 300 ms (3 s), also in a race-detector build; 13 management requests through the "
+             "running binary.",
         trusted=["encoding/json and net/http are transports: the model receives the decoded request fields", T_CRYPTO,
                  "AES-GCM as ideal AEAD (C07)"],
-        partial=["the running binary over real sockets is not exercised in this tier"],
+        partial=["the running binary is exercised with a small request set only (suite vbin: 13 management requests over "
+                 "its HTTP listener); the full matrix runs against the same handlers in-process"],
     ),
     "C07": dict(
         modules=["Whawty.Props.C07"],
@@ -165,13 +169,15 @@ PROPS = {
     ),
     "C09": dict(
         modules=["Whawty.Props.C09"],
-        suites=[("hdrv", "c09")],
+        suites=[("hdrv", "c09"), ("hdrv", "c09f")],
         level_text="durableAtAck_sound: the checker implies that from the acknowledgement on, under every subset of "
                    "pending directory operations, the name shows exactly the acknowledged content; model theorems for "
                    "add / update / set-admin / remove of the repaired code and the negation for the pinned code (D4). "
                    "Evaluated on the real strace trace of every traced mutating operation.",
         rule="init / add / update / set-admin / remove under strace on populated stores; exhaustive over all states from "
-             "the return on x all subsets of pending directory operations.",
+             "the return on x all subsets of pending directory operations; fault sweep: every injectable call of add / "
+             "update / set-admin / init failed in turn (ENOSPC/EIO/EACCES/EMFILE) — whenever the operation still reports "
+             "success, durableAtAck is evaluated on the faulted run's trace.",
         trusted=["the standard abstract persistence model", "strace output and the Go trace parser", T_GO],
     ),
     "C14": dict(
@@ -249,7 +255,7 @@ PROPS = {
     ),
     "C04": dict(
         modules=["Whawty.Props.C04"],
-        suites=[("overlay", "v04")],
+        suites=[("overlay", "v04"), ("overlay4", "vbin")],
         level_text="Each frontend is transport decoding composed with the store verdict: sasl_front, basic_front (split "
                    "at the first colon), ldap_front (bind name up to the first '@'), api_front; error_is_denial. Lean "
                    "theorems over the WebApi model. The real callback, a real saslauthd socket served by the agent, the "
@@ -331,7 +337,7 @@ PROPS = {
     ),
     "C10": dict(
         modules=["Whawty.Props.C10"],
-        suites=[("overlay", "v10"), ("overlay", "v10adv"), ("overlay", "v10ab")],
+        suites=[("overlay", "v10"), ("overlay", "v10adv"), ("overlay", "v10ab"), ("overlay4", "v10fd")],
         level_text="The dispatcher, its request channels, the upgrade queue and the hooks notification channel are a "
                    "labelled transition system with one executable successor function; dispatcher_never_stuck (no "
                    "reachable dispatcher deadlock for modes off / remote / local-with-non-blocking-enqueue, ALL "
@@ -344,7 +350,9 @@ PROPS = {
              "watchdog 1.5 s (thorough 5 s) per step with a goroutine dump of the dispatcher; afterwards a probe request; "
              "log-point adversary and stress runs; abandoned clients: 1-6 complete requests on /api/authenticate, "
              "/basic-auth and the saslauthd socket whose clients disconnect while the dispatcher is held, then probes "
-             "on the agent interface and the socket.",
+             "on the agent interface and the socket; descriptor exhaustion: RLIMIT_NOFILE lowered, the table filled, clients "
+             "connect with exactly one free descriptor (accept fails with EMFILE), then everything is released and both "
+             "the saslauthd socket and the HTTP listener must answer.",
         trusted=[T_GO + ": channel semantics (FIFO, blocking send on a full channel, select/default) are what the "
                  "transition system encodes", T_CRYPTO],
         partial=["'eventually' needs fairness of Go's select and the OS scheduler: runtime hypotheses; the run observes "
